@@ -371,6 +371,23 @@ pub fn alloc_vocab_method(cx: &mut Ctx, m: &syn::ExprMethodCall, recv: Tr, name:
       _ => {}
     }
   }
+  // r.unwrap_or_else(|e| something_went_wrong("f", e))
+  if name == "unwrap_or_else" && args.len() == 1 {
+    if let (Ty::Result(ok, err), syn::Expr::Closure(c)) = (&recv.ty, args[0]) {
+      if c.inputs.len() == 1 {
+        if let syn::Pat::Ident(pi) = &c.inputs[0] {
+          let depth = cx.vars.len();
+          cx.vars.push((pi.ident.to_string(), (**err).clone()));
+          let body = cx.expr(&c.body, Some(&**ok));
+          cx.vars.truncate(depth);
+          let body = body?;
+          let v = cx.fresh_pub("x");
+          let code = format!("({} <- {} ;; match {} with Ok t_v => Ret t_v | Err {} => {} end)", v, recv.lifted(), v, vname(&pi.ident.to_string()), body.lifted());
+          return Ok(Tr::eff(code, (**ok).clone()));
+        }
+      }
+    }
+  }
   // try_f(x).map_err(|(e, _v)| e).unwrap()
   if name == "unwrap" && args.is_empty() {
     if let Ty::Result(ok, err) = &recv.ty {
@@ -387,6 +404,15 @@ pub fn alloc_vocab_method(cx: &mut Ctx, m: &syn::ExprMethodCall, recv: Tr, name:
     }
   }
   if name == "map_err" && args.len() == 1 {
+    // .map_err(CheckedCastError::PodCastError): the conversion `?` would apply
+    if let (Ty::Result(ok, err), syn::Expr::Path(fp)) = (&recv.ty, args[0]) {
+      let f: Vec<String> = fp.path.segments.iter().map(|s| s.ident.to_string()).collect();
+      if **err == Ty::PErr && f.last().map(|x| x == "PodCastError").unwrap_or(false) && (f.len() == 1 || f[f.len() - 2] == "CheckedCastError") {
+        let v = cx.fresh_pub("x");
+        let code = format!("({} <- {} ;; Ret (match {} with Ok t_v => Ok t_v | Err t_e => Err (PodCastError t_e) end))", v, recv.lifted(), v);
+        return Ok(Tr::eff(code, Ty::Result(ok.clone(), Box::new(Ty::CErr))));
+      }
+    }
     // .map_err(|_| ()) on a Result whose error already carries nothing
     if let (Ty::Result(_, err), syn::Expr::Closure(c)) = (&recv.ty, args[0]) {
       let unit_body = matches!(&*c.body, syn::Expr::Tuple(t) if t.elems.is_empty());
